@@ -237,12 +237,19 @@ structure Request.WF (r : Request) : Prop where
   zb_len : ∀ l, r.zb = some l → l.length = r.n
   c0_len : ∀ l, r.c0 = some l → l.length = r.m * r.n
 
-/-- `gemm` with the argument checks: errors instead of silently defaulting. -/
+/-- `gemm` with the argument checks: `KSizeMismatch` when A or B does not hold `m·k` resp. `k·n`
+elements (the real API carries the shapes in the matrix views; here they are list lengths),
+`WrongQuantParamSize` for zero-point vectors of the wrong length, `OutputSizeMismatch` when the
+output buffer (and the initial output `c0`, if any) does not hold `m·n` elements.  Never defaults:
+`.ok l` implies `Request.WF` (`gemmChecked_ok`). -/
 def gemmChecked (r : Request) (outLen : Nat) : Except GemmErr (List Int) :=
-  match checkGemmArgs r.m r.k (if r.n = 0 then r.k else r.b.length / r.n) r.n
-      (r.za.map (·.length)) (r.zb.map (·.length)) outLen with
-  | .error e => .error e
-  | .ok () => .ok (gemm r)
+  if r.a.length != r.m * r.k || r.b.length != r.k * r.n then .error .kSizeMismatch
+  else
+    match checkGemmArgs r.m r.k r.k r.n (r.za.map (·.length)) (r.zb.map (·.length)) outLen with
+    | .error e => .error e
+    | .ok () =>
+      if (r.c0.map (·.length)).any (· != r.m * r.n) then .error .outputSizeMismatch
+      else .ok (gemm r)
 
 /-- Inputs are in the reduced range documented by `ReducedRangeRng`: all `a ∈ [0,127]` or all
 `b ∈ [−64,63]`. -/
